@@ -107,7 +107,8 @@ def run(ctx):
     _NVAR = ctx.pick(2, len(D.PERIODIC_SCALES))
     full_ticks = "{" + ", ".join(str(10 * x + dm) for x in range(0, 13) for dm in range(0, 4)) + "}"
     ctx.mc("loop", "Periodic", "MC_Periodic.cfg", required_actions=["Start", "Stop", "Tick", "Done"],
-           overrides=ctx.pick({}, {"Periods": "{1, 2, 3, 4, 5, 6}", "Ticks": full_ticks, "Back": 4, "MaxWall": 20, "MaxMono": 10}))
+           overrides=ctx.pick({}, {"Periods": "{1, 2, 3, 4, 5, 6}", "Ticks": full_ticks, "Back": 4, "MaxWall": 18, "MaxMono": 9}),
+           timeout=ctx.pick(300, 2400))
     runs = ctx.pick([{"L": 5}],
                     [{"L": 6, "Kinds": '{"sync", "coro", "raise"}'},
                      {"L": 5, "Periods": "{1, 5}", "Kinds": '{"sync", "coro", "cororaise"}', "Ticks": "{41, 52, 31, 11, 101, 30, 73}"}])
